@@ -66,6 +66,7 @@ impl BootInformationHeader {
 
 impl Header for BootInformationHeader {
     fn payload_len(&self) -> usize {
+        assert!(self.total_size as usize >= mem::size_of::<Self>());
         self.total_size as usize - mem::size_of::<Self>()
     }
 
